@@ -21,12 +21,12 @@ type c18run struct {
 	finished [2]bool
 	sessions [2]int
 	// transmission bookkeeping per sender
-	verbatim [2]map[string]int // token -> verbatim transmissions (any form)
-	resent   [2]map[string]int
-	order    [2][]string // tokens in Send order (accepted sends)
-	lastTok  [2]string   // most recent accepted text
-	errSince [2]bool     // an ?OTR Error arrived while encrypted since lastTok was sent
-	txOrder  [2][]string // tokens in order of first verbatim transmission
+	verbatim   [2]map[string]int // token -> verbatim transmissions (any form)
+	resent     [2]map[string]int
+	order      [2][]string // tokens in Send order (accepted sends)
+	lastTok    [2]string   // most recent accepted text
+	errSince   [2]bool     // an ?OTR Error arrived while encrypted since lastTok was sent
+	txOrder    [2][]string // tokens in order of first verbatim transmission
 	resendSeen bool
 }
 
